@@ -109,6 +109,23 @@ def run_case(ctx, case):
         pc_int.x, pc_int.y, pc_int.z = c
         pc_frac.x, pc_frac.y, pc_frac.z = c[0] + 0.25, c[1] + 0.9, c[2] + 0.5
         centres = [('id', ci), ('tuple', c), ('position', pc_int), ('fractional', pc_frac)]
+        if ci % 2 == 0 and not only:
+            # an expanding search: the same centre and the same kind of neighbourhood asked with growing radii, each radius twice in a row
+            # (first as coordinates, then as ids - or ids both times), nothing else in between
+            for mode_, fn_ in (('moore', env.get_moore_neighbours), ('neumann', env.get_neumann_neighbours)):
+                incl_ = (ci // 2) % 2 == 0
+                first_form = tuple if (ci // 4) % 2 == 0 else int
+                for r_ in range(0, maxr + 1):
+                    ball_ = [p for p in table if (max(abs(p[0] - c[0]), abs(p[1] - c[1]), abs(p[2] - c[2])) if mode_ == 'moore' else
+                                                  abs(p[0] - c[0]) + abs(p[1] - c[1]) + abs(p[2] - c[2])) <= r_ and (incl_ or p != c)]
+                    for form_ in (first_form, int):
+                        got_ = fn_(c if ci % 4 else ci, r_, incl_, form_)
+                        want_ = ball_ if form_ is tuple else [index[p] for p in ball_]
+                        ctx.count('queries_of_an_expanding_search')
+                        if got_ != want_:
+                            raise CaseViolation(f'expanding search around {c}: the {mode_} neighbourhood with radius {r_} (asked right after radius '
+                                                f'{r_ - 1 if form_ is first_form else r_}) as {form_.__name__} differs from the metric ball', shape=case,
+                                                expected=want_[:16], observed=got_[:16] if isinstance(got_, list) else got_)
         for r in range(maxr + 1):
             if ci % 3 == 0 and r == 1:
                 # queries that the world refuses (an unknown cell id, a radius handed over as 1.0 / 2.0, a centre with too few coordinates, an
